@@ -27,6 +27,9 @@
 (* reject in the merge and its quarantine half is dropped with the group.  *)
 (*                                                                         *)
 (* Two further dimensions (constants Kinds, ModOn):                         *)
+(*  kind "qpipe"  the target of block D1 is the real queue; once committed  *)
+(*                it hands the message to its own target with the          *)
+(*                quarantine flag the pipeline set (action Relay);         *)
 (*  kind "rpipe"  the target of block D1 is the real remote target, which  *)
 (*                refuses a message that is flagged when the body reaches  *)
 (*                it, on the atomic and on the per-recipient path alike;   *)
@@ -269,7 +272,7 @@ Cmd ==
                 \* the block the recipient is routed to (destination blocks are interchangeable:
                 \* the first recipient goes to D1)
                 \E b \in (IF drv.i <= Len(cfg.route) THEN {cfg.route[drv.i]}
-                          ELSE IF drv.i = 1 \/ cfg.kind = "rpipe" THEN {"D1"} ELSE DBlocks) :
+                          ELSE IF drv.i = 1 \/ cfg.kind \in {"rpipe", "qpipe"} THEN {"D1"} ELSE DBlocks) :
                   LET cf == IF drv.i <= Len(cfg.route) THEN cfg ELSE [cfg EXCEPT !.route = Append(@, b)]
                   IN Proceed(k, <<>>, <<"G", "S", b>>, devs, op, r, cf)
              [] op = "body"  ->
@@ -345,7 +348,8 @@ Tgt(x) ==
   /\ x.op = "rcpt" => [t |-> x.t, op |-> "start"] \notin run.tq
   /\ obs' = ObsTgt(obs, cfg, x.t, x.op, IF x.op = "rcpt" THEN run.r ELSE "", TgtRes(x), metaQ)
   /\ tg' = CASE x.op = "start" -> [tg EXCEPT ![x.t] = "open"]
-             [] x.op \in {"commit", "abort"} -> [tg EXCEPT ![x.t] = "done"]
+             [] x.op = "commit" -> [tg EXCEPT ![x.t] = "committed"]
+             [] x.op = "abort" -> [tg EXCEPT ![x.t] = "done"]
              [] OTHER -> tg
   /\ LET tf == run.tfail \/ TgtRes(x) # "ok" IN
      run' = IF run.tq = {x} THEN [run EXCEPT !.st = "ret", !.tq = {}, !.tfail = FALSE,
@@ -380,7 +384,8 @@ Ret ==
           \* the callers of the per-recipient path (LMTPData, the queue) commit whatever the statuses were
           [] run.op = "body" -> drv' = [drv EXCEPT !.ph = "fin",
                                                    !.fin = IF ok \/ cfg.path = "na" THEN "commit" ELSE "abort"]
-          [] OTHER -> drv' = [drv EXCEPT !.ph = "end"]
+          \* a committed queue goes on to deliver the message to its own target
+          [] OTHER -> drv' = [drv EXCEPT !.ph = IF cfg.kind = "qpipe" /\ tg["T1"] = "committed" THEN "relay" ELSE "end"]
   /\ UNCHANGED <<cfg, k, metaQ, used, tg, devs, delays, hist>>
 
 (* the remote target is handed a message that is already flagged (by the queue) *)
@@ -396,6 +401,13 @@ RemoteRcpt ==
   /\ drv' = [drv EXCEPT !.ph = "end"]
   /\ UNCHANGED <<cfg, k, metaQ, used, tg, run, devs, delays, hist>>
 
+(* the queue behind D1 hands the message, with the metadata it keeps, to its own target *)
+Relay ==
+  /\ drv.ph = "relay" /\ run.st = "idle"
+  /\ obs' = ObsTgt(obs, cfg, "Q1", "relay", "", "ok", metaQ)
+  /\ drv' = [drv EXCEPT !.ph = "end"]
+  /\ UNCHANGED <<cfg, k, metaQ, used, tg, run, devs, delays, hist>>
+
 End ==
   /\ drv.ph = "end" /\ run.st = "idle"
   /\ obs' = ObsEnd(obs, cfg)
@@ -404,7 +416,7 @@ End ==
   /\ UNCHANGED <<cfg, k, metaQ, used, tg, run, devs, delays, hist>>
 
 Next ==
-  \/ CfgS \/ CfgF \/ Cmd \/ Ret \/ End \/ RemoteStart \/ RemoteRcpt
+  \/ CfgS \/ CfgF \/ Cmd \/ Ret \/ End \/ Relay \/ RemoteStart \/ RemoteRcpt
   \/ \E c \in Checks : CallDone(c)
   \/ \E x \in run.tq : Tgt(x)
   \/ Mod
@@ -420,7 +432,7 @@ NoViolation == obs.viol = {}
 NoDevs      == Devs = {} => devs = {}
 TypeOK == /\ run.st \in {"idle", "grp", "mod", "tgt", "ret"}
           /\ k.reg \subseteq Checks
-          /\ \A t \in Targets : tg[t] \in {"none", "open", "done"}
+          /\ \A t \in Targets : tg[t] \in {"none", "open", "committed", "done"}
 \* every delivery that was opened is finished when the message is over
 Closed == drv.ph = "done" => \A t \in Targets : tg[t] # "open"
 \* Termination: every step consumes a pending call, a target operation, a command result or a
